@@ -170,7 +170,7 @@ theorem outcome_flush (g : Cfg) (s0 s : S) (ks : List KAns) (hk : K s = K s0) : 
   split
   · exact .same hk
   split
-  · exact .same hk
+  · exact .same (by rw [K_cResetRead]; exact hk)
   · exact outcome_flushLoop g _ s0 s ks hk
 
 /-- every step except `teardown`, from an open connection -/
